@@ -485,6 +485,10 @@ func (c *conn) QueryContext(ctx context.Context, q string, args []driver.NamedVa
 			return data[i].Fp < data[j].Fp
 		})
 	}
+	if len(st.Cols) == 1 && st.Cols[0] == "_count" && len(data) > 1 {
+		// the complexity estimate of a TraceQL request is one aggregate row, whatever the tables hold
+		data = data[:1]
+	}
 	if res.Complexity > 0 && len(st.Cols) == 1 && len(data) == 0 {
 		data = []Row{{}}
 	}
